@@ -21,6 +21,12 @@ func Assert_error_Validate(args []value.Value) error {
 			return errors.TypeMismatch(Assert_error_Name, i+1, Assert_error_ArgumentTypes[i], args[i].Type())
 		}
 	}
+	// optional response and message arguments must be STRING
+	for i := 1; i < len(args); i++ {
+		if args[i].Type() != value.StringType {
+			return errors.TypeMismatch(Assert_error_Name, i+1, value.StringType, args[i].Type())
+		}
+	}
 
 	return nil
 }
